@@ -1277,3 +1277,42 @@ def depends_on_args(eb, e, arg_locals, depth=6, _seen=None):
                 if r is not None:
                     return r
     return None
+
+
+def deep_defs(eb, e, limit=60):
+    """every definition expression reachable from the merged temporaries (`var` nodes) inside `e`,
+    transitively - the values a match / if-else expression can evaluate to, flattened"""
+    out, seen, work = [], set(), [e]
+    while work and len(out) < limit:
+        x = work.pop()
+        for n in walk(x):
+            if n[0] == "var" and isinstance(n[1], int) and n[1] not in seen:
+                seen.add(n[1])
+                for d in eb.def_exprs(n[1]):
+                    out.append(d)
+                    work.append(d)
+    return out
+
+
+def closure_call_values(p, e, limit=40):
+    """`e` = a direct call of a closure value, ('call', <closure path>, (closure aggregate, tuple(args))):
+    the values the call can return, in the caller's terms - the closure's return value and the
+    definitions of its merged temporaries, with captured variables replaced by what they were bound
+    to and parameters by the actual arguments"""
+    if not (e[0] == "call" and len(e[2]) == 2 and e[2][0][0] == "agg" and isinstance(e[2][0][1], str) and e[2][0][1] == "closure:" + e[1]):
+        return []
+    cb = p.bodies.get(e[1])
+    if cb is None or cb.kind != "Closure":
+        return []
+    actual = e[2][1][2] if e[2][1][0] == "agg" and e[2][1][1] == "tuple" else ()
+    ceb = ExprBuilder(cb)
+    r = ceb.local(0)
+    from .loops import rewrite
+    out = []
+    for x in ([r] + deep_defs(ceb, r))[:limit]:
+        try:
+            x = resolve_upvars(p, cb, x)
+        except Exception:  # noqa: BLE001
+            pass
+        out.append(rewrite(x, lambda n: actual[n[1] - 2] if n[0] == "arg" and isinstance(n[1], int) and 2 <= n[1] < 2 + len(actual) else None))
+    return out
